@@ -333,3 +333,8 @@ PLANS["C04"].proofs += _AT2
 _SETITEM = [("contracts.accessors", "SetItem"), ("contracts.accessors", "SetItemArray")]
 PLANS["C01"].proofs += _SETITEM
 PLANS["C18"].proofs += _SETITEM
+# x.copy(): independent data, same numbers / dtype / unit / class / name, original untouched (accessors.ALL puts it
+# into C16's plan); also C18 and C11
+_COPY = [("contracts.accessors", "ArrayCopy"), ("contracts.accessors", "QuantityCopy")]
+PLANS["C18"].proofs += _COPY
+PLANS["C11"].proofs += _COPY
